@@ -1733,7 +1733,7 @@ def _delegating(name, f):
         return f
 
     def g(self, *a, **k):
-        if a and _all_plain(a, k) and any(isinstance(x, _np.ndarray) for x in a):
+        if a and _all_plain(a, k) and any(isinstance(x, (_np.ndarray, _np.generic, list, tuple)) for x in a):
             return real(*[x.view(_np.ndarray) if isinstance(x, SArray) else x for x in a], **k)
         return f(self, *a, **k)
 
